@@ -49,8 +49,12 @@ def r1(chk, ctx, sp):
         ok = ok and not outside
     chk.ob("C13.R1", "path / intrinsic evaluation happens only in the '.$' arm", ok, "", key="%s | evaluation outside the '.$' arm" % ev.qname, where=ev.where(), message="everything else is copied verbatim")
     darms = [i for i in ast.walk(ev.node) if isinstance(i, ast.If) and norm(i.test) == "v == '$'"]
-    ok = len(darms) == 1 and [norm(s) for s in darms[0].body] == ["v = clone(input)"]
-    chk.ob("C13.R1", "a bare '$' member is cloned, so the payload never holds the live input object", ok, "",
+    from .c12 import placement_by_value
+    by_value = placement_by_value(sp)[0]
+    # needed only while ResultPath stores results by reference (a payload that IS the input, placed into the input, would make it cyclic);
+    # members selected by other paths alias parts of the input anyway, so this is not a condition of 'input left unmodified'
+    ok = by_value or (len(darms) == 1 and [norm(s) for s in darms[0].body] == ["v = clone(input)"])
+    chk.ob("C13.R1", "a bare '$' member is cloned" + (" (not needed: ResultPath places a copy)" if by_value else ", so a payload placed into the input cannot make it cyclic"), ok, "",
            key="%s | a '$' member holds the input by reference" % ev.qname, where=ev.where(),
            message="the input is 'left unmodified' only while the payload does not alias it: a later ResultPath write into the payload's copy would write into the input")
     txt = [norm(s) for s in ast.walk(cl.node) if isinstance(s, ast.stmt)]
